@@ -14,7 +14,7 @@
 use crate::common::Ctx;
 use crate::panicsafe::layouts;
 use micromap::{Entry, Map};
-use support::elems::{z_live, z_set_eq, Class, DEFAULT_PAYLOAD, TK, TV, Z};
+use support::elems::{tv_default_calls, z_live, z_set_eq, Class, DEFAULT_PAYLOAD, TK, TV, Z};
 use support::fault::{self, Caught};
 use support::frame::addr_of;
 use support::ledger;
@@ -63,6 +63,7 @@ const KTAG: u32 = 4242;
 fn via_entry<const N: usize>(chain: usize, m: &mut Map<TK, TV, N>, kc: u32, o: &mut Obs, addr: &mut Option<usize>) {
     let k = TK::new(kc, KTAG);
     let mut calls = [0u64; 3];
+    let defaults0 = tv_default_calls();
     let e = m.entry(k);
     o.push(("occupied", u64::from(matches!(e, Entry::Occupied(_)))));
     match chain {
@@ -245,6 +246,7 @@ fn via_entry<const N: usize>(chain: usize, m: &mut Map<TK, TV, N>, kc: u32, o: &
     o.push(("calls-default", calls[0]));
     o.push(("calls-modify", calls[1]));
     o.push(("calls-modify2", calls[2]));
+    o.push(("V::default-calls", tv_default_calls() - defaults0));
 }
 
 /// Twin B: the same effect through the direct operations named by the property.
@@ -372,6 +374,8 @@ fn via_direct<const N: usize>(chain: usize, m: &mut Map<TK, TV, N>, kc: u32, o: 
     o.push(("calls-default", calls[0]));
     o.push(("calls-modify", calls[1]));
     o.push(("calls-modify2", calls[2]));
+    // or_default builds the default value exactly when the entry is vacant, and no other chain builds one
+    o.push(("V::default-calls", u64::from(matches!(chain, 4 | 6) && !present)));
 }
 
 fn dict<const N: usize>(m: &Map<TK, TV, N>) -> Vec<(u32, u32, u32)> {
